@@ -206,6 +206,17 @@ def proof_gate(prop, build_status):
     npa = len(re.findall(r"Print Assumptions", src))
     if res["ok"] and npa < 1:
         res.update(ok=False, msg="props file has no Print Assumptions")
+    # thorough tier: the independent checker re-checks the property file and everything it depends on
+    if res["ok"] and os.environ.get("VERIF_TIER_EFFECTIVE", os.environ.get("VERIF_TIER", "quick")) == "thorough":
+        rc2, out2 = sh("timeout 1500 coqchk -silent -o -Q . Jamm Jamm.props.%s" % prop, timeout=1600, cwd=COQ)
+        m = re.search(r"\* Axioms:(.*?)\n\s*\n", out2, re.S)
+        ax = (m.group(1).strip() if m else "?")
+        res["coqchk"] = dict(rc=rc2, axioms=ax,
+                             no_type_in_type="type-in-type: <none>" in out2, no_unsafe_fixpoints="unsafe (co)fixpoints: <none>" in out2,
+                             no_assumed_positivity="positivity is assumed: <none>" in out2)
+        res["checker_cmd"] += " ; coqchk -silent -o -Q . Jamm Jamm.props.%s" % prop
+        if rc2 != 0 or ax != "<none>" or not (res["coqchk"]["no_type_in_type"] and res["coqchk"]["no_unsafe_fixpoints"] and res["coqchk"]["no_assumed_positivity"]):
+            res.update(ok=False, msg="coqchk: rc=%d axioms=%s %s" % (rc2, ax, out2[-400:]))
     res["discharged"] = len(thms) if res["ok"] else 0
     res["closed"] = closed
     return res
